@@ -25,4 +25,13 @@ CONTROLS = [
     dict(name="cmp_ast no longer compares the lengths of two sequences (a strict prefix compares equal)",
          edits=[("cdd/shared/ast_utils.py", "        if len(node0) != len(node1):\n            return False\n\n        for left, right in zip(node0, node1):", "        if len(node0) != len(node1):\n            pass\n\n        for left, right in zip(node0, node1):")],
          expect=r"cmp_ast#sequences-of-different-length-differ/block.ensures\[0\]"),
+    dict(name="the argparse emitter records the default it read from the prose in the caller's parameter dict (seed C12_i shape: the class emitter then writes `= None`)",
+         edits=[("cdd/shared/ast_utils.py", "    doc, _default = extract_default(_param[\"doc\"], emit_default_doc=emit_default_doc)\n    _action, default, _required, _typ = infer_type_and_default(\n        action,\n        _param.get(\"default\", _default),",
+                 "    doc, _default = extract_default(_param[\"doc\"], emit_default_doc=emit_default_doc)\n    _param.setdefault(\"default\", _default)\n    _action, default, _required, _typ = infer_type_and_default(\n        action,\n        _param[\"default\"],")],
+         expect=r"param2argparse_param#frame-on-default/block.ensures\[0\]"),
+    dict(name="_resolve_arg gives a **kwargs parameter an explicit None default in the caller's dict",
+         edits=[("cdd/shared/ast_utils.py", "        typ, required = \"loads\", not name.endswith(\"kwargs\")\n", "        typ, required = \"loads\", not name.endswith(\"kwargs\")\n        _param.setdefault(\"default\", None)\n")],
+         expect=r"_resolve_arg/ensures\[1\]"),
+    dict(name="BENIGN: the argparse emitter supplies the empty description before it resolves the type", benign=True,
+         edits=[("cdd/shared/ast_utils.py", "    _param.setdefault(\"typ\", \"Any\")\n    action, choices, required, typ, (name, _param) = _resolve_arg(", "    _param.setdefault(\"typ\", \"Any\")\n    _param.setdefault(\"doc\", \"\")\n    action, choices, required, typ, (name, _param) = _resolve_arg(")]),
 ]
